@@ -149,6 +149,11 @@ func GenE2(prop string, seed uint64) *Program {
 	case "C15":
 		scenario = "ckpt"
 		nk = 1 + r.Intn(3)
+	case "C13":
+		scenario = "openclose"
+		prog.NHandles = 1
+		prog.OnDisk = r.Chance(70)
+		nk = 1
 	case "C16":
 		scenario = "term"
 		prog.NColl = 2
@@ -366,6 +371,20 @@ func GenE2(prop string, seed uint64) *Program {
 		}
 		prog.NoLin = true
 		prog.NoFeedOracle = true
+	case "openclose":
+		prog.NoLin, prog.NoFeedOracle = true, true
+		for t := 0; t < 2+r.Intn(3); t++ {
+			var ops []Op
+			ops = append(ops, Op{Kind: "OpenHandle", CasMode: []string{"any", "reopen"}[r.Intn(2)]})
+			for i := 0; i < r.Intn(3); i++ {
+				ops = append(ops, Op{Kind: "Set", Handle: -1, Key: fmt.Sprintf("t%dk%d", t, i), Body: strp(fmt.Sprintf(`{"v":%d}`, g.uniq()))})
+			}
+			ops = append(ops, Op{Kind: "Close", Handle: -1})
+			prog.Tasks = append(prog.Tasks, ops)
+		}
+		if r.Chance(70) { // somebody closes the handle that created the bucket
+			prog.Tasks = append(prog.Tasks, []Op{{Kind: "Close", Handle: 0}})
+		}
 	case "shutdown":
 		g.p.ShortExp = true
 		g.p.ExpPct = 60
